@@ -282,6 +282,7 @@ def d2(ctx: Ctx):
                 file=rel,
                 line=line,
                 facts={"fields": [sorted(f, reverse=True) for f in fields][:12], "sink": items[0][2]},
+                signature=None if ok else f"fields {[sorted(f, reverse=True) for f in fields][:12]}",
                 props=["C17"] if dec == "rattoppm" else (["C16", "C17"] if dec in ("mgetoppm", "cm3toppm", "veftopng") else ["C16"]),
             )
 
